@@ -1,5 +1,7 @@
 import WK.Spec.C36
 import WK.Proofs.C36_Stages
+import WK.Gen.C36
+import WK.Proofs.C36_GenPins
 /-
   C36 — Send permission decisions are consistent across paths.
 
@@ -607,5 +609,133 @@ theorem c36_judge_model_ok (cfg : Cfg) (st : Store) (cmd : Cmd) (hwf : WF cfg)
   have h2 : ((perSend cfg st cmd).reason, (perSend cfg st cmd).err) = specDecision true cfg st cmd := by
     rw [c36_precedence_disband_first_partial cfg st cmd hbd]; exact c36_precedence cfg st cmd
   simp [h1, h2]
+
+
+/-! ## T tie: the ordered exits regenerated from permission.go / permission_batch.go / send.go -/
+
+/-- reason identifiers → codes via the regenerated constant table; `0` is the literal -/
+def codeOf (name : String) : Option Nat :=
+  if name = "0" then some 0 else Gen.C36.reasonCodes.lookup name
+
+/-- business-reason order of a list of reason codes: drop Success / SystemError, merge repeats -/
+def normReasons : List Nat → List Nat
+  | [] => []
+  | x :: xs =>
+    let r := normReasons xs
+    if x = rSuccess ∨ x = rSystemError then r
+    else match r with
+      | y :: _ => if x = y then r else x :: r
+      | [] => [x]
+
+def genOrder (names : List String) : Option (List Nat) := (names.mapM codeOf).map normReasons
+
+def ruleOrder (rs : List Rule) : List Nat := normReasons (rs.map (·.res.1))
+
+/-- the model's reason codes are the Go constants -/
+theorem c36_gen_reason_codes :
+    codeOf "ReasonSuccess" = some rSuccess ∧ codeOf "ReasonChannelNotExist" = some rChannelNotExist ∧
+    codeOf "ReasonSystemError" = some rSystemError ∧ codeOf "ReasonSubscriberNotExist" = some rSubscriberNotExist ∧
+    codeOf "ReasonInBlacklist" = some rInBlacklist ∧ codeOf "ReasonNotAllowSend" = some rNotAllowSend ∧
+    codeOf "ReasonNotInWhitelist" = some rNotInWhitelist ∧ codeOf "ReasonBan" = some rBan ∧
+    codeOf "ReasonDisband" = some rDisband ∧ codeOf "ReasonSendBan" = some rSendBan := by decide
+
+theorem c36_gen_channel_types :
+    Gen.C36.channelTypes.lookup "channelTypePerson" = some tPerson ∧ Gen.C36.channelTypes.lookup "channelTypeGroup" = some tGroup ∧
+    Gen.C36.channelTypes.lookup "channelTypeCustomerService" = some tCustomerService ∧
+    Gen.C36.channelTypes.lookup "channelTypeInfo" = some tInfo ∧ Gen.C36.channelTypes.lookup "channelTypeVisitors" = some tVisitors ∧
+    Gen.C36.channelTypes.lookup "channelTypeAgent" = some tAgent := by decide
+
+theorem c36_gen_reasons_terminal (st : Store) (id : Bytes) (ty : Nat) :
+    genOrder Gen.C36.checkTerminalChannelPermissionReasons = some (ruleOrder (terminalRules st id ty)) := by
+  have : ruleOrder (terminalRules st id ty) = [rDisband] := by simp [ruleOrder, terminalRules, normReasons, sysErr, rSystemError, rSuccess, rDisband]
+  rw [this]; decide
+
+theorem c36_gen_reasons_sender (st : Store) (uid : Bytes) :
+    genOrder Gen.C36.checkSenderSendPermissionReasons = some (ruleOrder (senderRules st uid)) := by
+  have : ruleOrder (senderRules st uid) = [rSendBan] := by simp [ruleOrder, senderRules, normReasons, sysErr, rSystemError, rSuccess, rSendBan]
+  rw [this]; decide
+
+theorem ruleOrder_common (st : Store) (id : Bytes) (ty : Nat) (uid : Bytes) :
+    (commonRules st id ty uid).map (·.res.1) = [5, 8, 5, 7, 5, 5, 10] := by
+  simp [commonRules, sysErr, rSystemError, rInBlacklist, rSubscriberNotExist, rNotInWhitelist]
+
+theorem c36_gen_reasons_common (st : Store) (id : Bytes) (ty : Nat) (uid : Bytes) :
+    genOrder Gen.C36.checkCommonMemberPermissionReasons = some (ruleOrder (commonRules st id ty uid)) := by
+  unfold ruleOrder; rw [ruleOrder_common]; decide
+
+/-- group: existence, Ban, Disband (the CODE's order), then the common member rules -/
+theorem c36_gen_reasons_group (st : Store) (id : Bytes) (ty : Nat) (uid : Bytes) :
+    (do let a ← genOrder Gen.C36.checkGroupSendPermissionReasons
+        let b ← genOrder Gen.C36.checkCommonMemberPermissionReasons
+        pure (a ++ b)) = some (ruleOrder (groupRules false st id ty uid)) := by
+  have : (groupRules false st id ty uid).map (·.res.1) = [5, 3, 11, 12, 5, 8, 5, 7, 5, 5, 10] := by
+    simp [groupRules, ruleOrder_common, sysErr, rSystemError, rChannelNotExist, rBan, rDisband]
+  unfold ruleOrder; rw [this]; decide
+
+/-- person: terminal rules come from checkSendPermission's switch; the person check adds deny → allow/stranger -/
+theorem c36_gen_reasons_person (cfg : Cfg) (st : Store) (uid : Bytes) :
+    (do let a ← genOrder Gen.C36.checkTerminalChannelPermissionReasons
+        let b ← genOrder Gen.C36.checkPersonSendPermissionReasons
+        pure (a ++ b)) = some (ruleOrder (personRules cfg st [0x61, 0x40, 0x62] uid)) := by
+  have hd : decodePerson [0x61, 0x40, 0x62] = some ([0x61], [0x62]) := by decide
+  have : (personRules cfg st [0x61, 0x40, 0x62] uid).map (·.res.1) = [5, 12, 5, 8, 5, 5, 10] := by
+    simp [personRules, hd, terminalRules, sysErr, rSystemError, rDisband, rInBlacklist, rNotInWhitelist]
+  unfold ruleOrder; rw [this]; decide
+
+theorem c36_gen_reasons_agent (st : Store) (uid : Bytes) :
+    (do let a ← genOrder Gen.C36.checkTerminalChannelPermissionReasons
+        let b ← genOrder Gen.C36.checkAgentSendPermissionReasons
+        pure (a ++ b)) = some (ruleOrder (agentRules st [0x61, 0x40, 0x62] uid)) := by
+  have hd : decodeAgent [0x61, 0x40, 0x62] = some ([0x61], [0x62]) := by decide
+  have : (agentRules st [0x61, 0x40, 0x62] uid).map (·.res.1) = [5, 12, 9] := by
+    simp [agentRules, hd, terminalRules, sysErr, rSystemError, rDisband, rNotAllowSend]
+  unfold ruleOrder; rw [this]; decide
+
+/-- batched group evaluator: sender rules, existence, the trusted branch (= terminal rules), then the group rules -/
+theorem c36_gen_reasons_eval_group (st : Store) (id uid : Bytes) (ty : Nat) :
+    genOrder Gen.C36.evaluateGroupPermissionReadPlanReasons =
+      some (normReasons ((senderRules st uid).map (·.res.1) ++ [rChannelNotExist] ++ (terminalRules st id ty).map (·.res.1)
+        ++ ((groupRules false st id ty uid).drop 2).map (·.res.1))) := by
+  have h1 : (senderRules st uid).map (·.res.1) = [5, 13] := by simp [senderRules, sysErr, rSystemError, rSendBan]
+  have h2 : (terminalRules st id ty).map (·.res.1) = [5, 12] := by simp [terminalRules, sysErr, rSystemError, rDisband]
+  have h3 : ((groupRules false st id ty uid).drop 2).map (·.res.1) = [11, 12, 5, 8, 5, 7, 5, 5, 10] := by
+    simp [groupRules, ruleOrder_common, rBan, rDisband]
+  rw [h1, h2, h3]; decide
+
+/-- batched person evaluator: sender rules, then exactly the person rule list -/
+theorem c36_gen_reasons_eval_person (cfg : Cfg) (st : Store) (uid : Bytes) :
+    genOrder Gen.C36.evaluatePersonPermissionReadPlanReasons =
+      some (ruleOrder (senderRules st uid ++ personRules cfg st [0x61, 0x40, 0x62] uid)) := by
+  have hd : decodePerson [0x61, 0x40, 0x62] = some ([0x61], [0x62]) := by decide
+  have : (senderRules st uid ++ personRules cfg st [0x61, 0x40, 0x62] uid).map (·.res.1) = [5, 13, 5, 12, 5, 8, 5, 5, 10] := by
+    simp [senderRules, personRules, hd, terminalRules, sysErr, rSystemError, rSendBan, rDisband, rInBlacklist, rNotInWhitelist]
+  unfold ruleOrder; rw [this]; decide
+
+theorem c36_gen_order_checkSendPermission : Gen.C36.checkSendPermission = Pinned.checkSendPermission := rfl
+theorem c36_gen_order_terminal : Gen.C36.checkTerminalChannelPermission = Pinned.checkTerminalChannelPermission := rfl
+theorem c36_gen_order_sender : Gen.C36.checkSenderSendPermission = Pinned.checkSenderSendPermission := rfl
+theorem c36_gen_order_group : Gen.C36.checkGroupSendPermission = Pinned.checkGroupSendPermission := rfl
+theorem c36_gen_order_common : Gen.C36.checkCommonMemberPermission = Pinned.checkCommonMemberPermission := rfl
+theorem c36_gen_order_agent : Gen.C36.checkAgentSendPermission = Pinned.checkAgentSendPermission := rfl
+theorem c36_gen_order_visitors : Gen.C36.checkVisitorsSendPermission = Pinned.checkVisitorsSendPermission := rfl
+theorem c36_gen_order_person : Gen.C36.checkPersonSendPermission = Pinned.checkPersonSendPermission := rfl
+theorem c36_gen_order_eval_group : Gen.C36.evaluateGroupPermissionReadPlan = Pinned.evaluateGroupPermissionReadPlan := rfl
+theorem c36_gen_order_eval_person : Gen.C36.evaluatePersonPermissionReadPlan = Pinned.evaluatePersonPermissionReadPlan := rfl
+theorem c36_gen_order_plan_group :
+    Gen.C36.checkGroupSendPermissionsBatch = Pinned.checkGroupSendPermissionsBatch ∧
+    Gen.C36.checkGroupSendPermissionsBatchReads = Pinned.checkGroupSendPermissionsBatchReads := ⟨rfl, rfl⟩
+theorem c36_gen_order_plan_person :
+    Gen.C36.checkPersonSendPermissionsBatch = Pinned.checkPersonSendPermissionsBatch ∧
+    Gen.C36.checkPersonSendPermissionsBatchReads = Pinned.checkPersonSendPermissionsBatchReads := ⟨rfl, rfl⟩
+theorem c36_gen_order_eligibility :
+    Gen.C36.batchEligibility = Pinned.batchEligibility ∧ Gen.C36.newBatchStore = Pinned.newBatchStore := ⟨rfl, rfl⟩
+
+
+-- non-vacuity: the regenerated tables are non-empty and evaluate
+example : genOrder Gen.C36.checkGroupSendPermissionReasons = some [rChannelNotExist, rBan, rDisband] := by decide
+example : genOrder Gen.C36.checkCommonMemberPermissionReasons = some [rInBlacklist, rSubscriberNotExist, rNotInWhitelist] := by decide
+example : genOrder Gen.C36.evaluatePersonPermissionReadPlanReasons = some [rSendBan, rDisband, rInBlacklist, rNotInWhitelist] := by decide
+example : Gen.C36.checkSendPermission.length = 21 ∧ Gen.C36.evaluateGroupPermissionReadPlan.length = 34 := by decide
+example : Gen.C36.batchEligibility.length = 2 := by decide
 
 end WK.C36
